@@ -419,6 +419,7 @@ pub fn compare(expect: &Decoded, book: &Spreadsheet, opt: CmpOpt) -> Vec<Disc> {
 fn compare_sheet(expect: &Decoded, es: &crate::pyworker::DSheet, ls: &Worksheet, opt: CmpOpt, out: &mut Vec<Disc>) {
     let sname = es.name.clone().unwrap_or_default();
     let mut expected_pos: HashSet<(u32, u32)> = HashSet::new();
+    let no_r_sheet = es.cells.iter().any(|c| !c.has_r);
     // several cells of a file may claim the same position only in invalid files; cells
     // without r are positioned by the decoder
     for ec in &es.cells {
@@ -436,6 +437,15 @@ fn compare_sheet(expect: &Decoded, es: &crate::pyworker::DSheet, ls: &Worksheet,
                 continue;
             }
             Some(lc) => {
+                if no_r_sheet && (ec.col, ec.row) == (1, 1) {
+                    // cells without r all land on A1: whatever A1 shows wrong is that finding
+                    let mut tmp = Vec::new();
+                    compare_cell(ec, lc, &feat, &at, e_blank, &mut tmp);
+                    if let Some(d) = tmp.first() {
+                        disc(out, "no-r/cells-misplaced", format!("{} (A1 is where cells without r land)", d.detail));
+                    }
+                    continue;
+                }
                 compare_cell(ec, lc, &feat, &at, e_blank, out);
                 if opt.styles {
                     if let Some(xf) = expect.styles.cell_xfs.get(ec.s as usize) {
@@ -879,7 +889,44 @@ pub fn check_corpus_file(file: &str) -> Result<(Vec<Disc>, Decoded), String> {
     }
 }
 
+/// Report only (C02 owns the verdict): what the validator says about corpus files after
+/// the library loaded and re-saved them.  `VERIF_C03_RESAVE_REPORT=1 ./check C03 quick`.
+fn resave_report() {
+    for f in corpus_files() {
+        let path = format!("{}/{}", corpus_dir(), f);
+        let Ok(bytes) = std::fs::read(&path) else { continue };
+        let r = guard(|| {
+            let book = umya_spreadsheet::reader::xlsx::read_reader(std::io::Cursor::new(&bytes), true).map_err(|e| format!("{:?}", e))?;
+            let mut out = std::io::Cursor::new(Vec::new());
+            umya_spreadsheet::writer::xlsx::write_writer(&book, &mut out).map_err(|e| format!("{:?}", e))?;
+            Ok::<Vec<u8>, String>(out.into_inner())
+        });
+        match r {
+            Err(p) => eprintln!("RESAVE {} | panic {}", f, p.short()),
+            Ok(Err(e)) => eprintln!("RESAVE {} | error {}", f, truncate(&e, 100)),
+            Ok(Ok(saved)) => {
+                let v = pyworker::validate(&saved);
+                let mut rules: BTreeMap<String, (usize, String)> = BTreeMap::new();
+                for x in &v {
+                    let e = rules.entry(x.rule.clone()).or_insert((0, format!("{}: {}", x.part, truncate(&x.detail, 120))));
+                    e.0 += 1;
+                }
+                if rules.is_empty() {
+                    eprintln!("RESAVE {} | valid", f);
+                } else {
+                    for (k, (n, first)) in rules {
+                        eprintln!("RESAVE {} | {} x{} | {}", f, k, n, first);
+                    }
+                }
+            }
+        }
+    }
+}
+
 fn extra(ctx: &Ctx) {
+    if std::env::var("VERIF_C03_RESAVE_REPORT").is_ok() {
+        resave_report();
+    }
     if !pyworker::ping() {
         eprintln!("HARNESS-ERROR: python worker does not answer");
         std::process::exit(2);
